@@ -62,6 +62,9 @@ func checkC09(c *Ctx) {
 		c.Undecided("C09-R1", "package tcell", "-", "not loaded")
 		return
 	}
+	c.Rule("C09-R13", "the charset the cells are encoded in is the terminal's: LC_ALL, LC_CTYPE, LANG in that order, a variable set to the empty string counting as unset (the wrong charset sends the UTF-8 of a printable rune to an 8-bit terminal as C1 control bytes)")
+	c.Expect("C09-R13", 3)
+	c.asRule("C17-R4", "C09-R13", func() { c17Charset(c, p) })
 	c.Rule("C09-R12", "every operand handed to the parameter interpreter is an int, a string or a bool (anything else is read as 0 and the emitted sequence names another colour or cell)")
 	c.Expect("C09-R12", 1)
 	checkTParmOperandTypes(c, p, "C09-R12")
